@@ -18,6 +18,7 @@ def to_behaviour(i, r):
             c["expect"]["data"] = a["data"]
         else:
             c["expect"]["nan_each"] = True
+            c["legacy_underflow"] = a.get("legacy_underflow", False)
         calls.append(c)
     return {"id": i, "ctx": "minimal", "calls": calls, "spec": r}
 
@@ -28,6 +29,14 @@ def classify(res, mism):
     for m in mism:
         b = m["behaviour"]
         fails = m["fails"]
+        # known finding: a legacy `pop v_i` that underflows marks only the element it could not
+        # serve; later steps may overwrite that NaN.  Classified only if that is ALL that is wrong:
+        # every failure is a missing NaN after an application in which a legacy pop underflowed
+        # (the count, 0, was right - a wrong count is a different failure kind).
+        if "KF-legacy-pop-underflow-masked" in kf and all(
+                f["what"] == "nan_each" and b["calls"][f["call"]].get("legacy_underflow") for f in fails):
+            res.add_known("KF-legacy-pop-underflow-masked", kf["KF-legacy-pop-underflow-masked"]["what"])
+            continue
         v = {"suite": "stack", "behaviour": b, "fails": fails, "def": b["calls"][0]["def"],
              "what": fails[0]["what"], "signature": fails[0]["what"] + ":" + b["calls"][0]["def"]}
         res.add_violation(v)
@@ -36,7 +45,7 @@ def classify(res, mism):
 def run(tier, seed):
     res = vlib.Result(PROP, tier, seed, "model_checking")
     vlib.build_harness()
-    cfgs = ["MC_C12_full2"] if tier == "quick" else ["MC_C12_full2", "MC_C12_red3", "MC_C12_wide2"]
+    cfgs = ["MC_C12_full2", "MC_C12_leg3"] if tier == "quick" else ["MC_C12_full2", "MC_C12_leg3", "MC_C12_red3", "MC_C12_wide2"]
     behaviours = []
     for cfg in cfgs:
         r = vlib.tlc_must_pass(vlib.tlc("MC_C12", cfg, workers=8 if tier == "quick" else 14, timeout=3000))
